@@ -43,6 +43,16 @@ def rnd(rng, a, b, digits=3):
 LITHOLOGY = {"peridotite": "Peridotite", "gabbro": "Gabbro", "MORB": "MORB", "sediment": "Sediment"}
 
 
+def orientation_terms(m, key_m, key_e):
+    """OCaml terms (lists of 9 numbers, row-major) for the orientations of a grains model given as rotation matrices or as
+    z-x-z Euler angles in degrees (converted by the model's euler_matrix, as the implementation converts them while parsing)"""
+    if key_m in m:
+        return [mlist([ml(x) for row in mat for x in row]) for mat in m[key_m]]
+    if key_e in m:
+        return ["(euler_matrix n %s %s %s)" % (ml(a[0]), ml(a[1]), ml(a[2])) for a in m[key_e]]
+    return None
+
+
 def spreading_values(sv, ridges):
     """the spreading velocity at every ridge coordinate the way parse_entries assigns it: a number (or a list with one number in
     all) for every point, otherwise the numbers of the list in document order, one per ridge coordinate; None when the list
@@ -188,20 +198,18 @@ class Elab:
     def grains_model(self, m, key):
         mn = self.dsurf(m.get("min depth"), 0.0, key + "/min depth")
         mx = self.dsurf(m.get("max depth"), DMAX, key + "/max depth")
-        if m["model"] == "uniform" and "rotation matrices" in m:
-            mats = [[x for row in mat for x in row] for mat in m["rotation matrices"]]
+        if m["model"] == "uniform" and orientation_terms(m, "rotation matrices", "Euler angles z-x-z") is not None:
             return "GUniform (%s, %s, %s, %s, %s)" % (
                 mn, mx, mlist([nlit(c) for c in m["compositions"]]),
-                mlist([mlist([ml(x) for x in mat]) for mat in mats]),
+                mlist(orientation_terms(m, "rotation matrices", "Euler angles z-x-z")),
                 mlist([ml(s) for s in m["grain sizes"]]))
         if m["model"] in ("random uniform distribution", "random uniform distribution deflected") and \
-                ("basis rotation matrices" in m or m["model"] == "random uniform distribution"):
+                (orientation_terms(m, "basis rotation matrices", "basis Euler angles z-x-z") is not None or m["model"] == "random uniform distribution"):
             self.uses_random = True
             comps = m["compositions"]
             defl = "None"
             if m["model"].endswith("deflected"):
-                bs = [[x for row in mat for x in row] for mat in m["basis rotation matrices"]]
-                defl = "Some (%s, %s)" % (mlist([ml(x) for x in m["deflections"]]), mlist([mlist([ml(x) for x in b]) for b in bs]))
+                defl = "Some (%s, %s)" % (mlist([ml(x) for x in m["deflections"]]), mlist(orientation_terms(m, "basis rotation matrices", "basis Euler angles z-x-z")))
             return "GRandom (%s, %s, %s, %s, %s, %s)" % (
                 mn, mx, mlist([nlit(c) for c in comps]), mlist([ml(x) for x in m["grain sizes"]]),
                 mlist(["true" if b else "false" for b in m["normalize grain sizes"]]), defl)
@@ -283,21 +291,22 @@ class Elab:
                 elif k == "adiabatic":
                     Tp, al, cp = m.get("potential mantle temperature", -1), m.get("thermal expansion coefficient", -1), m.get("specific heat", -1)
                     ts.append("STAdiabatic (%s, %s, %s, %s, %s, %s)" % (mn, mx, o, ml(self.Tp if Tp < 0 else Tp), ml(self.alpha if al < 0 else al), ml(self.cp if cp < 0 else cp)))
-                elif k == "mass conserving" and not fault and isinstance(m.get("spreading velocity", 0.05), (int, float)) \
-                        and isinstance(m.get("subducting velocity", 0.05), (int, float)) and not m.get("apply spline", False):
+                elif k == "mass conserving" and not fault and spreading_values(m.get("spreading velocity", 0.05), m["ridge coordinates"]) is not None \
+                        and isinstance(m.get("subducting velocity", 0.05), (int, float)):
                     dtr = PI / 180.0 if self.spherical else 1.0
                     ridges = [[(p[0] * dtr, p[1] * dtr) for p in ridge] for ridge in m["ridge coordinates"]]
-                    sv = float(m.get("spreading velocity", 0.05))
+                    svs = spreading_values(m.get("spreading velocity", 0.05), m["ridge coordinates"])
                     al, cp, kp = m.get("thermal expansion coefficient", -1), m.get("specific heat", -1), m.get("thermal diffusivity", -1)
                     Tp = self.Tp if self.Tp >= 0 else m.get("potential mantle temperature", -1)
                     ts.append("STMass {mc_min=%s; mc_max=%s; mc_op=%s; mc_density=%s; mc_conductivity=%s; mc_coupling=%s; mc_forearc=%s; mc_taper=%s; "
-                              "mc_alpha=%s; mc_cp=%s; mc_kappa=%s; mc_adiabatic=%s; mc_Tp=%s; mc_Ts=%s; mc_ridges=%s; mc_vels=%s; mc_sub=%s; mc_plate_reference=%s}" % (
+                              "mc_alpha=%s; mc_cp=%s; mc_kappa=%s; mc_adiabatic=%s; mc_Tp=%s; mc_Ts=%s; mc_ridges=%s; mc_vels=%s; mc_sub=%s; mc_plate_reference=%s; mc_spline=%s}" % (
                                   mn, mx, o, ml(m.get("density", 3300)), ml(m.get("thermal conductivity", 3.3)), ml(m.get("coupling depth", 100e3)),
                                   ml(m.get("forearc cooling factor", 1.0)), ml(m.get("taper distance", 100e3)),
                                   ml(self.alpha if al < 0 else al), ml(self.cp if cp < 0 else cp), ml(self.kappa if kp < 0 else kp),
                                   "true" if m.get("adiabatic heating", True) else "false", ml(Tp), ml(self.Ts),
-                                  mlist([mlist([mpt(p) for p in ridge]) for ridge in ridges]), mlist([mlist([ml(sv) for _ in ridge]) for ridge in ridges]),
-                                  ml(m.get("subducting velocity", 0.05)), "true" if m.get("reference model name", "half space model") == "plate model" else "false"))
+                                  mlist([mlist([mpt(p) for p in ridge]) for ridge in ridges]), mlist([mlist([ml(v) for v in vs]) for vs in svs]),
+                                  ml(m.get("subducting velocity", 0.05)), "true" if m.get("reference model name", "half space model") == "plate model" else "false",
+                                  ("Some (%s)" % natlit(int(m.get("number of points in spline", 5)))) if m.get("apply spline", False) else "None"))
                 elif k == "plate model" and not fault:
                     al, cp = m.get("thermal expansion coefficient", -1), m.get("specific heat", -1)
                     Tp = self.Tp if self.Tp >= 0 else m.get("potential mantle temperature", -1)
@@ -335,17 +344,15 @@ class Elab:
             for m in d["grains models"]:
                 mn, mx = ml(m.get(kmin, 0.0)), ml(m.get(kmax, DMAX))
                 comps = mlist([nlit(c) for c in m["compositions"]])
-                if m["model"] == "uniform" and "rotation matrices" in m:
-                    mats = [[x for row in mat for x in row] for mat in m["rotation matrices"]]
-                    gs.append("SGUniform (%s, %s, %s, %s, %s)" % (mn, mx, comps, mlist([mlist([ml(x) for x in mat]) for mat in mats]),
+                if m["model"] == "uniform" and orientation_terms(m, "rotation matrices", "Euler angles z-x-z") is not None:
+                    gs.append("SGUniform (%s, %s, %s, %s, %s)" % (mn, mx, comps, mlist(orientation_terms(m, "rotation matrices", "Euler angles z-x-z")),
                                                                 mlist([ml(x) for x in m["grain sizes"]])))
                 elif m["model"] in ("random uniform distribution", "random uniform distribution deflected") and \
-                        ("basis rotation matrices" in m or m["model"] == "random uniform distribution"):
+                        (orientation_terms(m, "basis rotation matrices", "basis Euler angles z-x-z") is not None or m["model"] == "random uniform distribution"):
                     self.uses_random = True
                     defl = "None"
                     if m["model"].endswith("deflected"):
-                        bs = [[x for row in mat for x in row] for mat in m["basis rotation matrices"]]
-                        defl = "Some (%s, %s)" % (mlist([ml(x) for x in m["deflections"]]), mlist([mlist([ml(x) for x in b]) for b in bs]))
+                        defl = "Some (%s, %s)" % (mlist([ml(x) for x in m["deflections"]]), mlist(orientation_terms(m, "basis rotation matrices", "basis Euler angles z-x-z")))
                     gs.append("SGRandom (%s, %s, %s, %s, %s, %s)" % (mn, mx, comps, mlist([ml(x) for x in m["grain sizes"]]),
                                                                    mlist(["true" if b else "false" for b in m["normalize grain sizes"]]), defl))
                 else:
@@ -646,6 +653,10 @@ class Gen:
         m = {"model": "uniform", "compositions": comps, "rotation matrices": mats,
              "grain sizes": [r.choice([-1, self.num(0.01, 2, 3)]) for _ in comps]}
         if r.random() < 0.3:
+            # the other way of giving the orientations: z-x-z Euler angles in degrees
+            del m["rotation matrices"]
+            m["Euler angles z-x-z"] = [[self.num(-360, 360, 1), self.num(0, 180, 1), self.num(-360, 360, 1)] for _ in comps]
+        if r.random() < 0.3:
             m["max depth"] = self.num(dmax - 4e4, dmax + 2e4, 0)
         return m
 
@@ -668,6 +679,9 @@ class Gen:
                      [sb * sc, cc * sb, cb]]
                 mats.append([[round(x, 9) for x in row] for row in R])
             m["basis rotation matrices"] = mats
+            if r.random() < 0.25:
+                del m["basis rotation matrices"]
+                m["basis Euler angles z-x-z"] = [[self.num(-360, 360, 1), self.num(0, 180, 1), self.num(-360, 360, 1)] for _ in comps]
         if r.random() < 0.3:
             m["max depth"] = self.num(dmax - 4e4, dmax + 2e4, 0)
         return m
@@ -702,6 +716,8 @@ class Gen:
             cx, cy = centre or (self.num(-5e5, 5e5, 0), self.num(-5e5, 5e5, 0))
             rad = size or self.num(5e4, 6e5, 0)
         f = {"model": kind, "name": name, "coordinates": self.polygon(cx, cy, rad)}
+        if r.random() < 0.1:
+            f["interpolation"] = r.choice(["global", "continuous monotone spline"])
         if r.random() < 0.3:
             f["tag"] = r.choice(["alpha", "beta", "continental plate", "gamma"])
         dmin = 0.0
@@ -846,6 +862,10 @@ class Gen:
                 m["reference model name"] = r.choice(["half space model", "plate model"])
             if r.random() < 0.3:
                 m["adiabatic heating"] = r.choice([True, False])
+            if r.random() < 0.3:
+                m["apply spline"] = True
+                if r.random() < 0.6:
+                    m["number of points in spline"] = r.choice([1, 2, 3, 5, 8])
         return m
 
     def slab_comp_model(self, kind, ncomp=4):
@@ -982,6 +1002,9 @@ class Gen:
                     nx, ny = -dy / L * side, dx / L * side
                     m["ridge coordinates"] = [[[round(a[0] - nx * off - dx, 1), round(a[1] - ny * off - dy, 1)],
                                                [round(b[0] - nx * off + dx, 1), round(b[1] - ny * off + dy, 1)]]]
+                if m.get("model") == "mass conserving" and isinstance(m.get("spreading velocity"), (int, float)) and r.random() < 0.3:
+                    # one spreading velocity per ridge coordinate
+                    m["spreading velocity"] = [[0.0, [[self.num(0.02, 0.1, 3) for _p in ridge]]] for ridge in m["ridge coordinates"]]
         fill(f.get("temperature models"))
         for s in f["segments"]:
             fill(s.get("temperature models"))
@@ -1039,6 +1062,11 @@ class Gen:
                 if r.random() < 0.5:
                     a, b = b, a
             w["cross section"] = [a, b]
+        if r.random() < 0.2:
+            # the only interpolation the library still accepts (the others are rejected while the world is built)
+            w["interpolation"] = "continuous monotone spline"
+        if r.random() < 0.1:
+            w["maximum distance between coordinates"] = self.num(0, 1e5, 0)
         self.globals(w)
         w["features"] = []
         return w, spherical
